@@ -245,6 +245,12 @@ ApplyBuiltin(f, v, args, calls) ==
             ROk(IF v.xs = <<>> THEN Null ELSE v.xs[1], calls)
       [] f = "last" /\ args = <<>> /\ v.t = "list" ->
             ROk(IF v.xs = <<>> THEN Null ELSE v.xs[Len(v.xs)], calls)
+      \* on maps the element order is the iteration order of the map (see C03: any fixed order)
+      [] f = "first" /\ args = <<>> /\ v.t = "map" -> ROk(IF v.vs = <<>> THEN Null ELSE v.vs[1], calls)
+      [] f = "last" /\ args = <<>> /\ v.t = "map" -> ROk(IF v.vs = <<>> THEN Null ELSE v.vs[Len(v.vs)], calls)
+      [] f = "join" /\ v.t = "map" /\ Len(args) <= 1 /\ (\A i \in 1..Len(v.vs) : Printable(v.vs[i]))
+                    /\ (args = <<>> \/ args[1].t = "str") ->
+            ROk(VS(JoinTexts(v.vs, IF args = <<>> THEN <<>> ELSE args[1].s)), calls)
       [] f = "first" /\ args = <<>> /\ v.t = "str" ->
             ROk(VS(IF v.s = <<>> THEN <<>> ELSE <<v.s[1]>>), calls)
       [] f = "last" /\ args = <<>> /\ v.t = "str" ->
